@@ -67,7 +67,7 @@ ALGOS: dict[str, dict[str, Any]] = {
     "OT_LHS": {"family": "n", "seed": "seed"},
     "OT_LHSC": {"family": "n", "seed": "seed"},
     "OT_OPT_LHS": {"family": "n", "seed": "seed", "min_n": 2},
-    "PYDOE_LHS": {"family": "n", "seed": "random_state"},
+    "PYDOE_LHS": {"family": "n", "seed": "random_state", "seed_min": 1},  # random_state: PositiveInt
     # low-discrepancy sequences / space-filling engines
     "Halton": {"family": "n", "seed": "seed"},
     "Sobol": {"family": "n", "seed": "seed"},
@@ -99,6 +99,8 @@ ALGOS: dict[str, dict[str, Any]] = {
 }
 IN_SCOPE = [a for a, m in ALGOS.items() if m.get("scope", "in") == "in"]
 N_VALUES = [1, 2, 5, 17]
+# explicit seeds: "all ... seeds" includes the falsy one (0) and the largest one the libraries accept
+SEED_VALUES = [0, 0, 0, 1, 2, 3, 7, 11, 123, 2**31 - 1]
 
 
 def factory():
@@ -204,6 +206,11 @@ def flat(space):
 # --------------------------------------------------------------------------- requests
 # request = {"algo", "n", "seed", "opts": {...json-able...}}; opts hold the algorithm settings other than
 # n_samples / seed; arrays are given as nested lists of "p/q" strings under the keys listed in ARRAY_OPTS.
+
+
+def pick_seed(rng: common.Rng, algo: str, values=None) -> int:
+    """An explicit seed the algorithm's settings accept (PYDOE_LHS documents a positive random_state)."""
+    return max(rng.pick(values or SEED_VALUES), ALGOS[algo].get("seed_min", 0))
 
 
 def seed_kw(algo: str, seed) -> dict[str, Any]:
@@ -398,6 +405,8 @@ def valid_request(space, req) -> bool:
     algo, n, opts = req["algo"], req["n"], req["opts"]
     d = space_dim(space)
     if d < ALGOS[algo].get("min_dim", 1) or d < 1 or n < 1:
+        return False
+    if req.get("seed") is not None and ALGOS[algo]["seed"] is not None and req["seed"] < ALGOS[algo].get("seed_min", 0):
         return False
     if algo == "PYDOE_LHS":
         crit = opts.get("criterion")
@@ -985,7 +994,7 @@ def product_stream(ctx, res: Result) -> None:
                             continue
                         stream = "exact" if rng.chance(0.5) else "rounded"
                         space = gen_space(rng, dim, stream)
-                        seed = rng.pick([1, 2, 3, 7, 11, 123, 2**31 - 1]) if (si == 0 or rng.chance(0.7)) else None
+                        seed = pick_seed(rng, algo) if (si == 0 or rng.chance(0.7)) else None
                         req = gen_request(rng, algo, space, n, seed)
                         (batch_in if meta.get("scope", "in") == "in" else batch_probe).append((space, req, stream))
         for i in range(0, len(batch_in), 120):
@@ -1051,7 +1060,7 @@ def library_seed_stream(ctx, res: Result) -> None:
             dim = rng.randint(1, 3)
             space = gen_space(rng, dim, "exact")
             n = 24 if algo == "OT_SOBOL_INDICES" else rng.pick([5, 8, 12])
-            seq = [None if rng.chance(0.5) else rng.pick([1, 2, 3, 7]) for _ in range(rng.randint(3, 6))]
+            seq = [None if rng.chance(0.45) else pick_seed(rng, algo, [0, 0, 1, 2, 3, 7]) for _ in range(rng.randint(3, 6))]
             use_exec = [rng.chance(0.3) for _ in seq]
             cases.append((algo, space, n, seq, use_exec))
             lines.append("seeder 0 " + ",".join("_" if r is None else str(r) for r in seq))
@@ -1407,8 +1416,10 @@ def run(ctx) -> Result:
         "spaces (asymmetric, often pairwise disjoint bounds; float/integer/mixed; optional current value; switch on/off; "
         "random algorithm options), each generated 3 times via compute_doe (+ unit sampling) and once via execute; "
         "non-trivial = at least 2 samples generated, distinct by (space, request); side streams: Seeder sequences, library "
-        "seed sequences, count rules n=1..40(70) x d=1..5, full-factorial levels up to 1e12, GEMSEO's own unit designs, "
-        "design-space views"
+        "seed sequences (explicit seeds include 0), count rules n=1..40(70) x d=1..5, full-factorial levels up to 1e12, "
+        "GEMSEO's own unit designs, design-space views; session stream: 90 (320) histories on ONE design-space object and "
+        "ONE library object (DOE / query, then edits that move, add, remove, retype, rebound or rename variables, then "
+        "DOEs again; compute_doe, unit sampling and execute; seeds 0 / explicit / default), non-trivial = at least 2 DOEs"
     )
     res.assumptions = [
         "third-party samplers return points of [0,1]^d, the requested number of points, and are functions of their seed (validated per run by the oracle on the real outputs)",
@@ -1419,12 +1430,21 @@ def run(ctx) -> Result:
         "CustomDOE: samples given inside the bounds, integer components integral; bounds compared with a 2^-40 slack (normalize/unnormalize round trip in floats)",
         "OATDOE/MorrisDOE: relative step <= 1/2 (a larger step can leave the unit hypercube by construction)",
     ]
+    from harness import c14_session
+
+    res.assumptions.append(
+        "sessions: edits keep the design space bounded and non-empty, the current value inside the bounds (a `setval` "
+        "follows every execute, which stores the best point as current value); the unit samples fed to the model for a "
+        "compute_doe of a session are those of a fresh library on a fresh design space with the effective seed made explicit")
     for c in load_corpus():
         if "space" in c and "request" in c:
             check_batch(res, [(c["space"], c["request"], c.get("stream", "corpus"))], c.get("in_scope", True))
             res.count("corpus")
+        elif "session" in c:
+            c14_session.check_sessions(res, [c["session"]])
+            res.count("corpus")
     for stream in (view_stream, seeder_stream, count_stream, own_designs_stream, library_seed_stream, probe_stream,
-                   product_stream):
+                   c14_session.session_stream, product_stream):
         guarded(stream, ctx, res)
     return res
 
@@ -1449,6 +1469,10 @@ def replay(path: str) -> int:
         for k, m in bad:
             print("ORACLE FAILS:", k, m)
         return 1 if bad else 0
+    if "session" in rp:
+        from harness import c14_session
+
+        return c14_session.replay_session(rp)
     if "seeder" in rp:
         from gemseo.utils.seeder import Seeder
 
